@@ -357,6 +357,31 @@ func genPrefilterFor(r Rng, h *History) *bs.QueryPrefilter {
 // rowDirectedPrefilter is the sharpest probe of block metadata: a single condition built from one stored
 // row's own indexed value (so that row satisfies it), touching the boundary of its int64 cover.
 func rowDirectedPrefilter(r Rng, h *History) *bs.QueryPrefilter {
+	if len(h.Order) > 0 && (len(h.Keys) == 0 || r.Chance(0.35)) {
+		// a partition condition written around one stored row's own partition: value lists in no particular
+		// order (as a decoded or hand-written condition may carry them), ranges touching it, complements
+		sr := h.Rows[h.Order[r.IntN(len(h.Order))]]
+		if sr.PID != "" {
+			p := sr.PID
+			var sc bs.StringCondition
+			switch r.Pick(6) {
+			case 0:
+				sc = bs.StringCondition{Operator: bs.OpIn, Values: []string{"zz-last", p, "aa-first", "mm"}}
+			case 1:
+				sc = bs.StringCondition{Operator: bs.OpIn, Values: []string{p + "x", "~", p}}
+			case 2:
+				sc = bs.PartitionBetween(p, p)
+			case 3:
+				sc = bs.StringCondition{Operator: bs.OpNotIn, Values: []string{"zz", p + "x", "aa"}}
+			case 4:
+				sc = bs.PartitionGreaterThanEqual(p)
+			default:
+				sc = bs.PartitionLessThanEqual(p)
+			}
+			e := bs.Partition(sc)
+			return &bs.QueryPrefilter{Expression: &e}
+		}
+	}
 	if len(h.Order) == 0 || len(h.Keys) == 0 {
 		return nil
 	}
